@@ -163,6 +163,9 @@ class ServeMultiPeriodManifest(RequestHandlerBase):
         except ValueError as e:
             logging.info('Invalid CGI parameters: %s', e)
             return flask.make_response('Invalid CGI parameters', 400)
+        # as for single period manifests: options that only apply to live
+        # streams must not be forwarded to VOD media URLs
+        options.remove_unused_parameters(mode)
         dash = ManifestContext(
             manifest=current_manifest, options=options, stream=None,
             multi_period=current_mps)
